@@ -5,7 +5,10 @@ root = os.path.dirname(os.path.dirname(os.path.abspath(__file__)))
 mat = json.load(open(os.path.join(root, "seeded", "MATRIX.json")))
 print("| seeded change | what it breaks (needs) | quick check result |")
 print("|---|---|---|")
-for name in sorted(mat):
+def key(n):
+    a, b = n.rsplit("-", 1)
+    return (a, int(b))
+for name in sorted(mat, key=key):
     meta = json.load(open(os.path.join(root, "seeded", name, "meta.json")))
     summ = (meta.get("summary") or "").replace("|", "/").replace("\n", " ")
     summ = summ[:170] + ("…" if len(summ) > 170 else "")
@@ -14,8 +17,11 @@ for name in sorted(mat):
     r = mat[name]
     det = r.get("detail", "")
     m = re.search(r"check=(\S+) secs=(\d+) violation class=(\S+) run_index=(\d+)", det)
+    rep = re.search(r"replay_reproduced=(\d/\d)", det)
     if r["result"] == "detected" and m:
-        res = f"**detected** by {m.group(1)}: `{m.group(3)}` at run {m.group(4)} ({m.group(2)} s)"
+        res = f"**detected** by {m.group(1)}: `{m.group(3)}` at run {m.group(4)} ({m.group(2)} s)" + (f", replay reproduced {rep.group(1)}" if rep else "")
+    elif meta.get("expected") == "missed":
+        res = "**missed** (expected, see the text above): " + (meta.get("note") or "")[:160].replace("|", "/") + "…"
     else:
         res = f"**{r['result']}** {det[:80]}"
     print(f"| {name} | {summ} *(needs: {needs})* | {res} |")
